@@ -380,3 +380,11 @@ Proof.
   unfold flat_ok in Hf. destruct (linearize a) as [l|] eqn:El; [|discriminate]. now apply (reader_sim_ast_nobrace fo a l).
 Qed.
 Print Assumptions reader_sim_C04.
+
+(** C05, node multipliers, also for texts without braces *)
+Theorem reader_nodes_shorthand_nobrace fo l : lins_ok fo l = true ->
+  read_cgsmiles fo (lins_str l) = read_cgsmiles fo (lins_str (expand_lin l)).
+Proof.
+  intros H. rewrite !reader_sim_lin_nobrace by (assumption || now apply expand_lin_ok).
+  symmetry. apply denote_expand_lin. unfold lins_ok in H. apply andb_prop in H as [H _]. now apply andb_prop in H as [H _].
+Qed.
